@@ -79,5 +79,21 @@ def check(ctx: Ctx) -> None:
         ctx.ob("C05.attach", f"{lt},{rt}", out[0] == "ret" and out[1] == other["state"],
                f"attaching a format constraint to {other['cls']}({other['state']}) gives {out[:2]} instead of leaving the state unchanged",
                file=FILE, line=fn.node.lineno, function=cb)
+    # a hint is information only - whatever its text is (the empty string is a legal hint text, None means 'no such hint')
+    from .. import refsem
+    from ..rcsweep import evaluate_tree, rc_assignments
+
+    for text in ("[1] U [501]", "([1] U [501]) O [2]", "[501] U [1][901]", "[1] X ([2] U [501] U [502])"):
+        e = refsem.parse_condition(text)
+        for rc in rc_assignments(e):
+            for hint_text in ("", "x"):
+                hints = {k: hint_text for k in refsem.keys_of(e) if refsem.key_kind(k) == "hint"}
+                rec = evaluate_tree(model, e, rc, hints=hints)
+                ctx.count()
+                want = refsem.outcome(refsem.state(e, rc))
+                asg = ",".join(f"{k}={v[:3]}" for k, v in rc.items())
+                ctx.ob("C05.hint-text", f"{text}@{asg}:{hint_text!r}", (rec.get("fulfilled"), rec.get("conditional")) == want,
+                       f"{text} under {asg} with hint text {hint_text!r} gives {rec}; the hint must not change the outcome {want}",
+                       file="src/ahbicht/expressions/hints_provider.py", function="HintsProvider.get_hints")
     ctx.soft(lambda: report_sweep(ctx, ("C04.tree", "C06.tree"), FILE))
     ctx.assume("brackets leave no node in the tree (decided by C01.brackets)")
